@@ -7,7 +7,9 @@ for the model of the connection shell parametrised by the runtime record (HC/Con
 make the workers' differing primitives indistinguishable (event clear with no foreign waiter; Closed idempotent)."""
 from __future__ import annotations
 
+import json
 import random
+from pathlib import Path
 from typing import Any, Dict, List, Optional
 
 from ..core import clients as C
@@ -408,6 +410,11 @@ def corpus() -> List[dict]:
                  ["recv"], ["recv"], ["send", {"type": "http.response.body", "body": b"b", "more_body": True}], ["send", {"type": "http.response.body", "body": b"c"}]]
     h1([["send", "POST / HTTP/1.1\r\nHost: x\r\nTransfer-Encoding: chunked\r\n\r\n1\r\na\r\n"], ["sleep", 0.1], ["send", "zz\r\nbroken"], ["sleep", 1.0]],
        "send_after_server_close", apps=[streaming], methods=["POST"])
+    # minimised past failures (each was a genuine defect, see design_notes/C16.md), kept as found and run first in every tier
+    past = Path(__file__).resolve().parents[1] / "data" / "c16_corpus.json"
+    if past.exists():
+        from harness.core.conn import revive
+        out += [revive(c) for c in json.loads(past.read_text())]
     return out
 
 
